@@ -27,7 +27,7 @@ ASSUMPTIONS = [
 
 def budgets(tier):
     if tier == "quick":
-        return {"examples": 280, "max_s": 80, "shrink_s": 20, "shards": 1}
+        return {"examples": 220, "max_s": 80, "shrink_s": 20, "shards": 1}
     return {"examples": 2000, "max_s": 700, "shrink_s": 90, "shards": 16}
 
 
@@ -115,8 +115,17 @@ def check_case(case):
             require(o2 == observed_in2, name + ".second_pass.observed_pass_through", "after an in-place reveal the observed part does not pass through unchanged")
 
     # ---- hold-out splits
-    for hname, f in (("plate_balanced", create_plate_balanced_holdout_set_among_masked_plates), ("random", create_random_holdout)):
+    for hname, f in (("plate_balanced", create_plate_balanced_holdout_set_among_masked_plates), ("random", create_random_holdout), ("plate_balanced_after_merge", create_plate_balanced_holdout_set_among_masked_plates)):
         screen = S.build_screen(sc)
+        if hname == "plate_balanced_after_merge":
+            # two unobserved plates of the same object are merged in place first (plate ids of the later plates move)
+            un_ = sorted(int(p_.plate_id) for p_ in screen.plates if not bool(np.any(p_.observation_mask)))
+            if len(un_) < 2 or not sc["observed"]:
+                continue
+            a_, b_ = un_[case["seed"] % len(un_)], un_[(case["seed"] // 7 + 1) % len(un_)]
+            if a_ == b_:
+                b_ = un_[(un_.index(a_) + 1) % len(un_)]
+            screen.get_plate(a_).merge(screen.get_plate(b_))
         snap = retro.snapshot(screen)
         frac = case["fraction"]
         train, hold = f(screen, frac, np.random.default_rng(case["seed"]))
@@ -131,11 +140,11 @@ def check_case(case):
         tm = retro.multiset(train, with_plate=True, with_mask=True)
         im = retro.multiset(screen, with_plate=True, with_mask=True)
         require(_included(tm, im), hname + ".training_mask_kept", "training rows changed their observation status")
-        if hname == "plate_balanced":
+        if hname.startswith("plate_balanced"):
             hold_by_plate = collections.Counter(str(p) for p in hold.plate_names)
             for p in sorted(set(str(x) for x in screen.plate_names)):
                 size = int(np.sum(np.asarray(screen.plate_names) == p))
-                observed = p in set(sc["observed"])
+                observed = bool(np.asarray(screen.observation_mask)[np.asarray(screen.plate_names) == p][0])
                 exp = 0 if observed else math.ceil(size * frac)
                 require(hold_by_plate.get(p, 0) == exp, hname + ".per_plate_count", lambda: "plate %r (size %d, %s): %d rows held out, expected %d (fraction %r)" % (p, size, "observed" if observed else "unobserved", hold_by_plate.get(p, 0), exp, frac))
         else:
